@@ -1,10 +1,11 @@
 import Proofs.E2E.Basic
 import Proofs.C02.Ecdsa
+import Proofs.C02.Group
 /-
 End-to-end corollaries for C02 (ECDSA): the theorems of `Props/C02.lean`, whose hypothesis `L : Lawful o G` is a named
 assumption there, instantiated with the PROVED `lawful_ec` — so they speak about `Btc.EC.ops C` ITSELF, the raw integer
 pairs the driver computes with and the correspondence ties to btclib.  Hypotheses left: `CurveOk p C` (p prime ≠ 2, n an
-odd prime, generator reduced, on the curve, of order n) and `p ≡ 3 (mod 4)` (only because `Lawful` bundles `lift_x`).
+odd prime, generator reduced, on the curve, of order n) and `p ≡ 3 (mod 4)` for the recovery theorems only (`lift_x`); sign / verify go through `lawfulGroup_ec` (no such hypothesis).
 `sign` / `verify` do not call `lift_x`: their runs over `opsSub K` ARE runs over `Btc.EC.ops C` (`rfl`).  `recover` calls
 it once; what `opsSub K` recovers, `Btc.EC.ops C` recovers (`recover_opsSub`).
 -/
@@ -71,19 +72,19 @@ theorem recover_opsSub (K : CurveOk p C) (primeOrder : Bool) (kid c r s : ℤ) (
 
 /-- **C02-T1 on btclib's arithmetic**: whatever `_sign_recoverable_` returns when run over `Btc.EC.ops C` is accepted
 by the verifier run over `Btc.EC.ops C` under the public key `mult q G` (and is low-s on request) -/
-theorem ecdsa_sign_verifies_ec (K : CurveOk p C) (h34 : p % 4 = 3) {c q k : ℤ} {lowerS : Bool} {r s kid : ℤ}
+theorem ecdsa_sign_verifies_ec (K : CurveOk p C) {c q k : ℤ} {lowerS : Bool} {r s kid : ℤ}
     (hk : 0 < k ∧ k < C.n) (h : signRecoverable (EC.ops C) c q k lowerS = .ok (r, s, kid)) :
     Ecdsa.verify (EC.ops C) c ((EC.ops C).mul q C.G) r s = true ∧ (lowerS = true → s ≤ C.n / 2) := by
-  have L := lawful_ec K h34
-  exact sign_verifies L (c := c) (q := q) (k := k) (lowerS := lowerS) (r := r) (s := s) (kid := kid) hk
+  have L := lawfulGroup_ec K
+  exact Grp.sign_verifies L (c := c) (q := q) (k := k) (lowerS := lowerS) (r := r) (s := s) (kid := kid) hk
     ((opsSub K).mul q (opsSub K).gen) (L.abs_mul q _) h
 
 /-- **C02-T2 on btclib's arithmetic**: on every reduced valid pair `Q` of the `n`-torsion and all integers `c, r, s`,
 the verifier run over `Btc.EC.ops C` answers `true` exactly when the SEC 1 relation holds in Mathlib's point group of the
 curve over `ZMod p` (`absSub`: the point a pair denotes) -/
-theorem ecdsa_verify_iff_sec1_ec (K : CurveOk p C) (h34 : p % 4 = 3) (c : ℤ) (Q : SubPt p C) (r s : ℤ) :
-    Ecdsa.verify (EC.ops C) c Q.1 r s = true ↔ SEC1 (lawful_ec K h34) c Q r s :=
-  verify_iff_SEC1 (lawful_ec K h34) c Q r s
+theorem ecdsa_verify_iff_sec1_ec (K : CurveOk p C) (c : ℤ) (Q : SubPt p C) (r s : ℤ) :
+    Ecdsa.verify (EC.ops C) c Q.1 r s = true ↔ Grp.SEC1 (lawfulGroup_ec K) c Q r s :=
+  Grp.verify_iff_SEC1 (lawfulGroup_ec K) c Q r s
 
 /-- **C02-T3 on btclib's arithmetic**: with the `key_id` signing returned, `_recover_pub_key_` run over `Btc.EC.ops C`
 answers the signer's key: a pair the code's `==` identifies with `mult q G` -/
@@ -110,12 +111,12 @@ theorem ecdsa_sign_verifies_secp256k1
     (h : signRecoverable (EC.ops secp256k1) c q k lowerS = .ok (r, s, kid)) :
     Ecdsa.verify (EC.ops secp256k1) c ((EC.ops secp256k1).mul q secp256k1.G) r s = true ∧
       (lowerS = true → s ≤ secp256k1.n / 2) :=
-  @ecdsa_sign_verifies_ec secp256k1_p ⟨secp256k1_p_prime⟩ secp256k1 secpOk secp256k1_h34 c q k lowerS r s kid hk h
+  @ecdsa_sign_verifies_ec secp256k1_p ⟨secp256k1_p_prime⟩ secp256k1 secpOk c q k lowerS r s kid hk h
 
 theorem ecdsa_verify_iff_sec1_secp256k1
     (c : ℤ) (Q : SecpPt) (r s : ℤ) :
     Ecdsa.verify (EC.ops secp256k1) c Q.1 r s = true ↔ SEC1 secpLawful c Q r s :=
-  @ecdsa_verify_iff_sec1_ec secp256k1_p ⟨secp256k1_p_prime⟩ secp256k1 secpOk secp256k1_h34 c Q r s
+  verify_iff_SEC1 secpLawful c Q r s
 
 theorem ecdsa_recover_signer_secp256k1
     {c q k : ℤ} {lowerS : Bool} {r s kid : ℤ}
@@ -132,7 +133,7 @@ theorem ecdsa_recover_signer_secp256k1
 theorem toy_ecdsa_sign : signRecoverable (EC.ops toyC) 3 5 2 true = .ok (7, 12, 0) := by decide +kernel
 
 theorem toy_ecdsa_verifies : Ecdsa.verify (EC.ops toyC) 3 ((EC.ops toyC).mul 5 toyC.G) 7 12 = true :=
-  (ecdsa_sign_verifies_ec toyOk (by decide) (by decide) toy_ecdsa_sign).1
+  (ecdsa_sign_verifies_ec toyOk (by decide) toy_ecdsa_sign).1
 
 theorem toy_ecdsa_recovers : ∃ Q', recover (EC.ops toyC) true 0 3 7 12 true = .ok Q' ∧
     (EC.ops toyC).eq Q' ((EC.ops toyC).mul 5 toyC.G) = true :=
@@ -238,38 +239,41 @@ theorem isXCoord_complete (K : CurveOk p C) (P : SubPt p C) (hP : absSub P ≠ 0
 /-- **C02-T2 over the raw arithmetic, any key the API accepts** (cofactor one): for a pair `Q` that `point_from_pub_key`
 accepts, with `x` reduced, the verifier run over `Btc.EC.ops C` answers `true` exactly when SEC 1 holds for the point
 `Q` denotes -/
-theorem ecdsa_verify_iff_sec1_raw (K : CurveOk p C) (h34 : p % 4 = 3)
+theorem ecdsa_verify_iff_sec1_raw (K : CurveOk p C)
     (hcof : ∀ g : Pt p C.toCurveGroup, C.n • g = 0) (c : ℤ) (Q : Point)
     (hv : AValid p C.toCurveGroup Q) (hr : RedA C.toCurveGroup Q) (r s : ℤ) :
     Ecdsa.verify (EC.ops C) c Q r s = true ↔
-      SEC1 (lawful_ec K h34) c ⟨Q, inSubOf hcof hv hr⟩ r s :=
-  verify_iff_SEC1 (lawful_ec K h34) c ⟨Q, inSubOf hcof hv hr⟩ r s
+      Grp.SEC1 (lawfulGroup_ec K) c ⟨Q, inSubOf hcof hv hr⟩ r s :=
+  Grp.verify_iff_SEC1 (lawfulGroup_ec K) c ⟨Q, inSubOf hcof hv hr⟩ r s
 
 /-- **C02-T2′ over the raw arithmetic**: the PUBLIC boolean (`Sig.assert_valid`'s screens with the executed
 x-coordinate test `isXCoord C`, refusals turned into `False`) is the SEC 1 predicate; `hX` is proved, not assumed -/
-theorem ecdsa_verify_api_is_sec1_raw (K : CurveOk p C) (h34 : p % 4 = 3)
+theorem ecdsa_verify_api_is_sec1_raw (K : CurveOk p C)
     (hcof : ∀ g : Pt p C.toCurveGroup, C.n • g = 0) (c : ℤ) (Q : Point)
     (hv : AValid p C.toCurveGroup Q) (hr : RedA C.toCurveGroup Q) (r s : ℤ) :
     verifyFull (EC.ops C) (isXCoord C) c Q r s = true ↔
-      SEC1 (lawful_ec K h34) c ⟨Q, inSubOf hcof hv hr⟩ r s := by
-  have L := lawful_ec K h34
-  have h := verifyFull_eq_verify (lawful_ec K h34) (isXCoord C)
+      Grp.SEC1 (lawfulGroup_ec K) c ⟨Q, inSubOf hcof hv hr⟩ r s := by
+  have h := Grp.verifyFull_eq_verify (lawfulGroup_ec K) (isXCoord C)
     (fun P hP => isXCoord_complete K P hP) c ⟨Q, inSubOf hcof hv hr⟩ r s
-  rw [← verify_iff_SEC1 (lawful_ec K h34), ← h, verifyFull_opsSub]
+  rw [← Grp.verify_iff_SEC1 (lawfulGroup_ec K), ← h, verifyFull_opsSub]
 
 /-- the same two, with key validity as the API decides it (`pubKeyOk`: `point_from_pub_key` on a tuple) -/
-theorem ecdsa_verify_api_is_sec1_key (K : CurveOk p C) (h34 : p % 4 = 3)
+theorem ecdsa_verify_api_is_sec1_key (K : CurveOk p C)
     (hcof : ∀ g : Pt p C.toCurveGroup, C.n • g = 0) (c : ℤ) (Q : Point)
     (hk : pubKeyOk C Q = true) (hx : 0 ≤ Q.1 ∧ Q.1 < C.p) (r s : ℤ) :
     (verifyFull (EC.ops C) (isXCoord C) c Q r s = true ↔ Ecdsa.verify (EC.ops C) c Q r s = true) ∧
     (Ecdsa.verify (EC.ops C) c Q r s = true ↔
-      SEC1 (lawful_ec K h34) c ⟨Q, inSubOf hcof (valid_of_pubKeyOk K hk hx).1
+      Grp.SEC1 (lawfulGroup_ec K) c ⟨Q, inSubOf hcof (valid_of_pubKeyOk K hk hx).1
         (valid_of_pubKeyOk K hk hx).2.1⟩ r s) := by
   obtain ⟨hv, hr, _⟩ := valid_of_pubKeyOk K hk hx
-  exact ⟨by rw [ecdsa_verify_api_is_sec1_raw K h34 hcof c Q hv hr, ecdsa_verify_iff_sec1_raw K h34 hcof c Q hv hr],
-    ecdsa_verify_iff_sec1_raw K h34 hcof c Q hv hr r s⟩
+  exact ⟨by rw [ecdsa_verify_api_is_sec1_raw K hcof c Q hv hr, ecdsa_verify_iff_sec1_raw K hcof c Q hv hr],
+    ecdsa_verify_iff_sec1_raw K hcof c Q hv hr r s⟩
 
 end
+
+/-- `secpOps` as a `LawfulGroup` (the group part of `secpLawful`) -/
+noncomputable def secpLawfulG : LawfulGroup secpOps SecpGroup :=
+  @lawfulGroup_ec secp256k1_p ⟨secp256k1_p_prime⟩ secp256k1 secpOk
 
 /-- secp256k1, any key the API accepts.  `hcof` — cofactor one: every point of `y² = x³ + 7` over `F_p` is killed by
 `n`, i.e. the curve has exactly `n` points — is NOT proved here (no point count); it is the one named assumption. -/
@@ -278,9 +282,9 @@ theorem ecdsa_verify_api_is_sec1_secp256k1 (hcof : ∀ g : SecpGroup, secp256k1.
     (verifyFull (EC.ops secp256k1) (isXCoord secp256k1) c Q r s = true ↔
       Ecdsa.verify (EC.ops secp256k1) c Q r s = true) ∧
     (Ecdsa.verify (EC.ops secp256k1) c Q r s = true ↔
-      SEC1 secpLawful c ⟨Q, @inSubOf secp256k1_p ⟨secp256k1_p_prime⟩ secp256k1 hcof _
+      Grp.SEC1 secpLawfulG c ⟨Q, @inSubOf secp256k1_p ⟨secp256k1_p_prime⟩ secp256k1 hcof _
         (@valid_of_pubKeyOk secp256k1_p ⟨secp256k1_p_prime⟩ secp256k1 secpOk Q hk hx).1
         (@valid_of_pubKeyOk secp256k1_p ⟨secp256k1_p_prime⟩ secp256k1 secpOk Q hk hx).2.1⟩ r s) :=
-  @ecdsa_verify_api_is_sec1_key secp256k1_p ⟨secp256k1_p_prime⟩ secp256k1 secpOk secp256k1_h34 hcof c Q hk hx r s
+  @ecdsa_verify_api_is_sec1_key secp256k1_p ⟨secp256k1_p_prime⟩ secp256k1 secpOk hcof c Q hk hx r s
 
 end Btc.E2E
